@@ -394,7 +394,9 @@ def run(case):
 def conf_strategy():
     from hypothesis import strategies as st
     ep = st.tuples(st.sampled_from(['https://x.example.org/a', 'https://x.example.org/b', 'https://x.example.org/c?d=1']), st.integers(0, 3)).map(list)
-    return st.fixed_dictionaries({'kind': st.sampled_from(['sp', 'idp']), 'acs': st.lists(ep, min_size=1, max_size=3, unique_by=lambda e: (e[0], e[1])),
+    # explicit endpoint indexes (documented 3-tuple form): none, or distinct values out of 0 / 1 / 5 as int or str, assigned in order
+    idx = st.one_of(st.none(), st.permutations([0, 1, 5, '0', '7']))
+    return st.fixed_dictionaries({'kind': st.sampled_from(['sp', 'idp']), 'acs': st.lists(ep, min_size=1, max_size=3, unique_by=lambda e: (e[0], e[1])), 'acs_index': idx,
                                   'slo': st.lists(ep, max_size=2, unique_by=lambda e: (e[0], e[1])), 'key': st.integers(0, 9),
                                   'enc': st.lists(st.integers(0, 9), max_size=2, unique=True)})
 
@@ -408,8 +410,21 @@ def run_conf(case):
     clock.set_now(NOW)
     B4 = [world.POST, world.REDIRECT, world.SOAP, world.ARTIFACT]
     eid = 'https://x.example.org/entity'
+    explicit = {}
+    if case['kind'] == 'sp' and case.get('acs_index'):
+        seen = set()
+        acs_conf = []
+        for (u, b), i in zip(case['acs'], case['acs_index']):
+            if str(i) in seen:
+                acs_conf.append((u, B4[b]))
+                continue
+            seen.add(str(i))
+            acs_conf.append((u, B4[b], i))
+            explicit[(u, B4[b])] = str(i)
+    else:
+        acs_conf = [(u, B4[b]) for u, b in case['acs']]
     if case['kind'] == 'sp':
-        confd = world.sp_conf({'entityid': eid, 'acs': [(u, B4[b]) for u, b in case['acs']], 'slo': [(u, B4[b]) for u, b in case['slo']], 'key': case['key'], 'enc_keys': case['enc']})
+        confd = world.sp_conf({'entityid': eid, 'acs': acs_conf, 'slo': [(u, B4[b]) for u, b in case['slo']], 'key': case['key'], 'enc_keys': case['enc']})
     else:
         confd = world.idp_conf({'entityid': eid, 'sso': [(u, B4[b]) for u, b in case['acs']], 'slo': [(u, B4[b]) for u, b in case['slo']], 'key': case['key']})
     xml = world.metadata_from_conf(confd, case['kind'])
@@ -428,6 +443,11 @@ def run_conf(case):
             got = []
         if got != exp:
             raise Violation('roundtrip-endpoints-differ', '%s endpoints for %s: configured %r, served %r' % (case['kind'], b.split(':')[-1], exp, got))
+        if explicit and case['kind'] == 'sp':
+            served = dict(((s['location'], b), s.get('index')) for s in (res if got else []))
+            for (u, bb), i in explicit.items():
+                if bb == b and served.get((u, b)) != i:
+                    raise Violation('roundtrip-index-differs', 'assertion consumer endpoint %s (%s) configured with index %r is served with index %r' % (u, b.split(':')[-1], i, served.get((u, b))))
         exp = sorted(u for u, bb in case['slo'] if B4[bb] == b)
         try:
             got = sorted(s['location'] for s in mds.single_logout_service(eid, b, 'spsso' if case['kind'] == 'sp' else 'idpsso'))
